@@ -1005,7 +1005,11 @@ def main():
              assumptions=["bufio.Reader.ReadBytes, bytes.Index/IndexByte/HasPrefix/TrimRight and the UTF-8 decoding inside bytes.ToLower are re-specified in Model/C18.v and exercised by the correspondence, not verified",
                           "ReadLine is exercised over in-memory streams; read errors are injected by the driver's own io.Reader (alone, with the last data, through iotest.OneByteReader/HalfReader/DataErrReader) "
                           "and modelled as events handed out once; errors of a real device (EIO/ESTALE from the kernel) are not provoked, they reach bufio through the same Read interface",
-                          "FileFindRecord/FileExistsRecord run on real files of the scratch file system, lines up to 70 000 bytes in the quick tier (300 000 in the thorough tier); a file that cannot be opened is not exercised"])
+                          "FileFindRecord/FileExistsRecord run on real files of the scratch file system, lines up to 70 000 bytes in the quick tier (300 000 in the thorough tier); a file that cannot be opened is not exercised",
+                          "that the helpers share no state between calls running at the same time is validated, not proved: 8 goroutines of one process make a fixed number of calls "
+                          "(no clock is read) and every distinct answer is checked; the Coq model is sequential, C18_concurrent_independent states only what the parallel run is compared with. "
+                          "A shared scratch area shows as a wrong answer with overwhelming, not total, certainty; races that change no answer are not looked for",
+                          "calls on buf[:n] of a larger buffer use tails of 1..8 non-zero bytes directly behind the input"])
 
 
 if __name__ == "__main__":
